@@ -372,6 +372,60 @@ def rule_rollback(chk):
                    key="rollback|" + inst)
 
 
+def rule_attach_atomic(chk):
+    R = "R-ATTACH-ATOMIC"
+    chk.rule(R, "CodeHolder::attach(): BaseEmitter::on_attach() stores the CodeHolder in the emitter before anything can fail, so every failing "
+                "return of attach() that follows the on_attach() call is preceded by `emitter->_code = nullptr` on that path (or no such return "
+                "exists): a failed attach never leaves an emitter that claims to be attached")
+    f = chk.facts("asmjit/core/codeholder.cpp", funcs=r"asmjit::CodeHolder::attach$")
+    fn = cfg.find_fn(f, "CodeHolder::attach")
+    fe = chk.facts("asmjit/core/emitter.cpp", funcs=r"asmjit::BaseEmitter::on_attach$")
+    oa = cfg.find_fn(fe, "BaseEmitter::on_attach")
+    sets_code = any(x["k"] == "binop" and x["op"] == "=" and (oa.access_path(x["lhs"]) or "").endswith("._code") for x in oa.ex.values())
+    chk.ob(R, "BaseEmitter::on_attach|sets-_code", sets_code, loc="asmjit/core/emitter.cpp:%d" % oa.line,
+           detail="BaseEmitter::on_attach no longer assigns _code: the premise of this rule changed, review it")
+    calls = [i for i, x in fn.calls(lambda x: x.get("cn") == "on_attach")]
+    chk.need(len(calls) >= 1, "CodeHolder::attach no longer calls on_attach")
+    from .cfg import forward
+
+    def transfer(b, st):
+        for el in fn.blocks[b]["elems"]:
+            if not isinstance(el, int):
+                continue
+            x = fn.e(el)
+            if el in calls:
+                st = True
+            elif st and x and x["k"] == "binop" and x["op"] == "=" and (fn.access_path(x["lhs"]) or "").endswith("._code"):
+                r = fn.e(fn.strip(x["rhs"]))
+                if r is not None and (r["k"] == "null" or r.get("cv") == 0):
+                    st = False
+        return st
+    IN, OUT = forward(fn, False, transfer, lambda ss: any(ss))
+    n = 0
+    for b, idx, r in fn.return_sites():
+        st = IN.get(b, False)
+        for el in fn.blocks[b]["elems"][:idx]:
+            if isinstance(el, int):
+                x = fn.e(el)
+                if el in calls:
+                    st = True
+                elif st and x and x["k"] == "binop" and x["op"] == "=" and (fn.access_path(x["lhs"]) or "").endswith("._code"):
+                    rr = fn.e(fn.strip(x["rhs"]))
+                    if rr is not None and (rr["k"] == "null" or rr.get("cv") == 0):
+                        st = False
+        v = fn.e(fn.strip(fn.e(r)["val"])) if fn.e(r).get("val") else None
+        if v is not None and v.get("cvn") == "kOk":
+            continue
+        if not any(fn.block_of().get(c) and b in (fn.reachable_from(fn.block_of()[c][0]) | {fn.block_of()[c][0]}) for c in calls):
+            continue
+        n += 1
+        chk.ob(R, "CodeHolder::attach|failing-return#%d" % n, not st, loc=fn.loc(r),
+               detail="this return can follow a failed on_attach() without `emitter->_code = nullptr`: the emitter keeps pointing at the CodeHolder "
+                      "although it is not in the attached list, and the next attach() returns kOk without attaching it",
+               key="attachatomic|failing-return")
+    chk.floor(R + ":failing-returns", n, 1)
+
+
 def rule_free_escape(chk):
     from . import freeescape
     R = "R-FREE-ESCAPE"
@@ -427,6 +481,7 @@ def run(chk):
     rule_rollback(chk)
     rule_commit_then_fail(chk)
     rule_free_escape(chk)
+    rule_attach_atomic(chk)
     rule_null_tested(chk, units)
     rule_reserve_then_append(chk, units)
     rule_call_order(chk)
